@@ -6,4 +6,7 @@ P2rs == [p \in {"a", "b"} |-> IF p = "a" THEN <<"Remove">> ELSE <<"Send">>]
 P2ow == [p \in {"a", "b"} |-> IF p = "a" THEN <<"Reopen">> ELSE <<"Write">>]
 P3 == [p \in {"a", "b", "c"} |-> CASE p = "a" -> <<"Remove", "Send">> [] p = "b" -> <<"Send", "Write">> [] p = "c" -> <<"Reopen", "Read">>]
 P3b == [p \in {"a", "b", "c"} |-> CASE p = "a" -> <<"Send", "Remove">> [] p = "b" -> <<"Write", "Reopen">> [] p = "c" -> <<"Send", "Send">>]
+P1s == [p \in {"a"} |-> <<"Send", "Read">>]
+P2sw == [p \in {"a", "b"} |-> IF p = "a" THEN <<"Send", "Send">> ELSE <<"Write", "Read">>]
+P2f == [p \in {"a", "b"} |-> IF p = "a" THEN <<"RemoveFail", "Send", "Write">> ELSE <<"WriteFail", "Read", "Remove">>]
 =============================================================================
